@@ -112,19 +112,34 @@ package soymsg
 //@   loop 0
 //@     invariant len(r) == 0 && cap(r) == 0 || fresh(r)
 //@ func genBasePlaceholderName
-//@   props C10 C08 C09
+//@   props C10 C08 C09 C11
 //@   nosafety
 //@   pure
+//@   requires[the-default-is-itself-a-usable-name;C10,C11] phName(defaultName)
 //@ func genBasePlaceholderNameFromExpr
-//@   props C10 C08 C09
+//@   props C10 C08 C09 C11
 //@   nosafety
 //@   pure
+//@   requires[the-default-is-itself-a-usable-name;C10,C11] phName(defaultName)
+//@   ensures[a-name-a-translation-can-refer-to;C10,C11] phName(result)
 //@   ghost gdot int = -2
 //@   at call strings.LastIndex#0 assert[cut-at-the-last-dot-of-the-global's-name;C10] same(arg0, unbox(expr, *ast.GlobalNode).Name) && arg1 == "."
 //@   at call strings.LastIndex#0 after set gdot = res
 //@   at call soymsg.toUpperUnderscore#0 assert[a-global-by-the-part-after-its-last-dot;C10,C11] substr(arg0, unbox(expr, *ast.GlobalNode).Name, gdot + 1) && len(arg0) == len(unbox(expr, *ast.GlobalNode).Name) - gdot - 1
 //@   at call soymsg.toUpperUnderscore#1 assert[a-plain-variable-by-its-name;C10] len(unbox(expr, *ast.DataRefNode).Access) == 0 && same(arg0, unbox(expr, *ast.DataRefNode).Key)
 //@   at call soymsg.toUpperUnderscore#2 assert[a-data-reference-by-its-last-key;C10] typeis(unbox(expr, *ast.DataRefNode).Access[len(unbox(expr, *ast.DataRefNode).Access)-1], *ast.DataRefKeyNode) && same(arg0, unbox(unbox(expr, *ast.DataRefNode).Access[len(unbox(expr, *ast.DataRefNode).Access)-1], *ast.DataRefKeyNode).Key)
+// C10 / C11: a placeholder name is one a translation can refer to ({NAME} as
+// Parts reads it): non-empty, capital ASCII letters, digits and underscores.
+//@ pred phName(s string) = len(s) >= 1 && forall(i, 0, len(s), (65 <= s[i] && s[i] <= 90) || (48 <= s[i] && s[i] <= 57) || s[i] == 95)
+//@ func usable
+//@   props C10 C11 C08 C09
+//@   pure
+//@   requires[the-default-is-itself-a-usable-name;C10,C11] phName(defaultName)
+//@   ensures[a-name-a-translation-can-refer-to;C10,C11] phName(result)
+//@   ensures[the-derived-name-when-it-is-one;C10] old(phName(name)) ==> same(result, name)
+//@   loop 0
+//@     invariant 0 <= i && i <= len(name) && len(name) >= 1 && forall(k, 0, i, (65 <= name[k] && name[k] <= 90) || (48 <= name[k] && name[k] <= 57) || name[k] == 95)
+//@     decreases len(name) - i
 //@ func genBasePlaceholderNameFromHtml
 //@   props C10 C08 C09
 //@   nosafety
